@@ -1,7 +1,6 @@
 package main
 
 import (
-	"strconv"
 	"encoding/json"
 	"fmt"
 	"net"
@@ -9,6 +8,7 @@ import (
 	"path/filepath"
 	"reflect"
 	"regexp"
+	"strconv"
 	"strings"
 	"time"
 
@@ -151,6 +151,7 @@ func runC05(c *Ctx) error {
 		emit("phone", "phone", s, "FPhone", nil, "directed:phone:"+verdictCell("phone", s, "phone"))
 	}
 	for _, s := range []string{"13812345678", "+13812345678", "13812345678 ", " 13812345678", "1381234567", "138123456789", "12812345678", "23812345678", "1３812345678", "13812345678\n",
+		"a,b@c.com", "a@b,c.com", "a@b.c,om", "a*b@c.com", "a)b@c.com", "a@b(c.com", "a/b@c.com", "a'b@c.com",
 		"a@b.cn", "a@b", "a@b.", "@b.cn", "a@.cn", "a@b.cn ", " a@b.cn", "a@b.cn\n", "a b@c.cn", "a@b@c.cn", "a@b.c-n", "a.b-c+d@e-f.gh.ij", "中@b.cn", "a@中.cn", "A@B.CN",
 		"11010519491231002X", "11010519491231002x", "110105194912310021", "11010519491231002", "1101051949123100211", "11010519491231002Y", " 11010519491231002X", "11010519491231002X\n"} {
 		emit("phone", "phone", s, "FPhone", nil, "directed:phone:"+verdictCell("phone", s, "phone"))
